@@ -99,17 +99,17 @@ class MuxModel:
 
 # ------------------------------------------------------------------------------------- stimuli
 
-def conforming_stimulus(max_txn=12):
+def conforming_stimulus(max_txn=12, min_txn=1, modes=("r", "r", "w", "w", "rw")):
     txn = st.fixed_dictionaries({
         "reg": st.integers(0, 7),
-        "mode": st.sampled_from(["r", "r", "w", "w", "rw"]),
+        "mode": st.sampled_from(list(modes)),
         "len": st.sampled_from(["full", "full", "full", "abort", "skip"]),
         "k": st.integers(0, 255),        # abort point / skip mask
         "gap": st.sampled_from([0, 0, 0, 1, 2]),     # idle cycles before the transaction
         "inner_gap": st.sampled_from([0, 0, 0, 1]),  # idle cycles between its accesses
         "unmapped": st.sampled_from([None, None, None, "r", "w", "rw"]),  # access to an unmapped address first
     })
-    return st.fixed_dictionaries({"kind": st.just("conf"), "txns": st.lists(txn, min_size=1, max_size=max_txn),
+    return st.fixed_dictionaries({"kind": st.just("conf"), "txns": st.lists(txn, min_size=min_txn, max_size=max_txn),
                                   "dseed": st.integers(0, 1 << 30)})
 
 
